@@ -223,6 +223,12 @@ def b_hist(ctx):
         if not ctx.mine():
             continue
         df = pd.DataFrame({'from': fr, 'to': to})
+        # the same collective with the columns listed the other way round and a further column: identified by name
+        df_alt = pd.DataFrame({'note': [0.5] * len(fr), 'to': to, 'from': fr})
+        for q_ in ('amplitude', 'meanstress', 'upper', 'lower'):
+            a_, b_ = np.asarray(getattr(df.load_collective, q_), dtype=float), np.asarray(getattr(df_alt.load_collective, q_), dtype=float)
+            if not np.array_equal(a_, b_):
+                ctx.fail(f'C14:column-order:{q_}', f'{q_} of the collective from={fr}, to={to} depends on the order of the columns: {a_.tolist()} vs {b_.tolist()}', {'from': fr, 'to': to})
         rng = np.abs(np.array(fr) - np.array(to))
         means = (np.array(fr) + np.array(to)) / 2
         for sname, spec in specs:
